@@ -27,8 +27,10 @@ fn fake_sendmail(dir: &Path, kind: &str) -> Option<PathBuf> {
         "killed" => "#!/bin/sh\nfor a in \"$@\"; do printf '%s\\0' \"$a\" >> \"$0.argv\"; done\ncat > \"$0.stdin\"\necho 'killed: out of memory' >&2\nkill -9 $$\n",
         // fail with a long diagnostic (3001 octets, two-octet characters at odd offsets)
         "faillong" => "#!/bin/sh\ncat > \"$0.stdin\"\nfor a in \"$@\"; do printf '%s\\0' \"$a\" >> \"$0.argv\"; done\nprintf 'x' >&2\ni=0\nwhile [ $i -lt 1500 ]; do printf '\\303\\251' >&2; i=$((i+1)); done\nexit 5\n",
-        // do not read the message at all (standard input closed at once), succeed
-        "ignore" => "#!/bin/sh\nexec 0<&-\nsleep 0.05\nexit 0\n",
+        // never read the message, succeed after 0.3 s: a message that fits the pipe's buffer is written without anybody
+        // noticing, a larger one makes the writer wait until the program has gone (broken pipe) — both outcomes are determined by
+        // the size of the message, not by timing
+        "ignore" => "#!/bin/sh\nsleep 0.3\nexit 0\n",
         _ => return None,
     };
     std::fs::write(&p, body).ok()?;
